@@ -450,8 +450,19 @@ func (x *Exec) applyContract(fc *FuncContract, key string, sig *types.Signature,
 			names[wn] = x.freshWitness(w)
 		}
 	}
+	n0 := len(st.pc)
 	for _, en := range fc.Ensures {
 		st.assume(env.evalBool(en.E))
+	}
+	// postcondition facts of calls are droppable at a `forget` loop head like
+	// invariant facts (quantified facts about earlier heap versions)
+	if x.invFacts == nil {
+		x.invFacts = map[*Term]bool{}
+	}
+	for _, t := range st.pc[n0:] {
+		if t.Op == "forall" || t.Op == "exists" || strings.Contains(t.String(), "(forall ") {
+			x.invFacts[t] = true
+		}
 	}
 	return res
 }
